@@ -245,6 +245,48 @@ func Run(r *fw.Run) {
 		r.Merge(l)
 	})
 	for _, s := range [][2]string{{"v1.2.3", "abcdef123456"}, {"v1.2.3-pre+incompatible", "A"}, {"", "0"}, {"v1.0.99999999999999999999", "z9"}} {
+		// sibling histories: pseudo-versions that differ only in the build suffix (or only in the revision, or
+		// only in the time) queried one right after the other, in both orders, in one goroutine: a result must
+		// not depend on what was parsed just before
+		{
+			l := fw.NewLocal()
+			type q struct {
+				major, base string
+				t           time.Time
+				rev         string
+			}
+			var qs []q
+			for _, base := range []string{"", "v1.2.3", "v1.2.3-pre", "v2.0.0", "v1.2.3-rc.0"} {
+				major := "v2"
+				if semverref.Parse(base).Valid {
+					major = semver.Major(base)
+				}
+				for _, build := range []string{"", "+incompatible", "+a", "+meta-data"} {
+					if base == "" && build != "" {
+						continue
+					}
+					for _, t := range []time.Time{ts[7], ts[8]} {
+						for _, rev := range []string{"abcdef123456", "abcdef123457"} {
+							qs = append(qs, q{major, base + build, t, rev})
+						}
+					}
+				}
+			}
+			r.Bounds["sibling_histories"] = fmt.Sprintf("all ordered pairs of %d closely related pseudo-version queries", len(qs))
+			for _, a := range qs {
+				for _, b := range qs {
+					l.States++
+					l.Transitions += 2
+					l.Execs += 2
+					one(a.major, a.base, a.t, a.rev)
+					if _, msg := one(b.major, b.base, b.t, b.rev); msg != "" {
+						c := caseT{Major: b.major, Base: b.base, Time: b.t.Format(time.RFC3339Nano), Rev: b.rev}
+						r.Violation(fmt.Sprintf("after:%s|%s|%s|%s", a.base, b.base, c.Time, b.rev), fmt.Sprintf("right after the same queries for base %q (time %s, revision %s): %s", a.base, a.t.Format(time.RFC3339), a.rev, msg), c)
+					}
+				}
+			}
+			r.Merge(l)
+		}
 		// revision sweep: every alphanumeric character alone, first and last in a revision
 		{
 			l := fw.NewLocal()
